@@ -332,7 +332,7 @@ SUFFIXES = {"C33": ["find 0", "find 1", "find 2", "find 3", "find 4", "find 5", 
 PRE_THIS, PRE_OTHER = [1], [0, 1, 2, 3, 4, 5]
 
 
-# several exchanges on one connection: after the first completed exchange the generator allows DEPTH2 further inputs
+# several exchanges on one connection: after the first completed exchange the generator allows depth2() further inputs
 # (refused re-request + a Just Works / passkey / OOB legacy exchange = 4, refused re-request + a LESC exchange = 6)
 SEGS = 1
 
@@ -367,7 +367,8 @@ def gen_inputs(c, k):
         pdus = list(PROTOCOL_PDUS) + [(11, 0, 0), (1, 1, 0)]
         syncs = [-1, 0, 1] if (nc and k["kind"] == 1) else [-1]
         oobs = ["TRUE"] if k["kind"] == 0 else ["FALSE"]     # legacy OOB needs local data; LESC OOB is reached by the request's flag
-        return reqs, pdus, syncs, oobs, [], False, (7 if k["kind"] == 0 else 8)
+        # (a completed exchange extends the bound by depth2() inputs, see SecurityManagerGen)
+        return reqs, pdus, syncs, oobs, [], False, {0: 6, 1: 8, 2: 7}[k["kind"]]
     # thorough: every opcode 0..15, more length variants, encryption changes as inputs, both OOB settings, all answer timings
     pdus = list(PROTOCOL_PDUS) + [(3, 0, 2), (3, 2, 0), (4, 1, 0), (12, 2, 0), (13, 2, 0), (1, 1, 0), (1, 2, 0)]
     pdus += [(op, 0, 0) for op in (0, 2, 5, 6, 7, 8, 9, 10, 11, 14, 15)]
@@ -416,8 +417,14 @@ def generate_behaviours(c, specdir, configs):
         seen.add(t)
         r = b[0]                        # ["reset", oob, sync, kind, in, out, mitm, bond]
         key = "sm_%d%d%d%d%d" % (r[3], r[4], r[5], r[6], r[7])
-        res[key].append([r[:3]] + b[1:])
+        res[key] += variants([r[:3]] + b[1:])
     return res
+
+
+def variants(b):
+    """a request the model accepted right after a completed exchange carries a trailing 1 (SecurityManagerGen): the script
+    line gets the retry flag - the harness-side central repeats that request once if it is answered with Pairing Failed"""
+    return [[(op[:7] + ([1] if len(op) > 7 and op[7] else [])) if op[0] == "req" else op for op in b]]
 
 
 def script_of(b, prop):
